@@ -108,10 +108,27 @@ def run_e2e(c):
         items = mem.store_backend.get_items()
         seen = [[infos.get(it.path, 0), it.size, int(round((it.last_access - BASE).total_seconds()))] for it in items]
         al = None if c["al"] is None else real_datetime.timedelta(seconds=c["al"])
+        if c.get("vanish") is not None:
+            # fault: the folder of the k-th item to delete is removed, then the deletion reports a stale handle (what a
+            # network file system does when another process was faster); the eviction must go on with the other items
+            import errno
+            backend = mem.store_backend
+            real_clear = backend.clear_location
+            count = [0]
+
+            def faulty_clear(location):
+                k = count[0]
+                count[0] += 1
+                real_clear(location)
+                if k == c["vanish"]:
+                    raise OSError(errno.ESTALE, "Stale file handle", location)
+            backend.clear_location = faulty_clear
         try:
             mem.reduce_size(c["bl"], c["il"], al)
         except Exception as e:  # noqa
             return dict(canon_exc(e), items=seen, fs_items=fs_items)
+        if c.get("vanish") is not None:
+            del mem.store_backend.clear_location      # back to the class's method
         survivors = [arg for arg, n, t in c["entries"] if cf.check_call_in_cache(arg, n)]
         dirs_left = sorted(infos[p] for p in infos if os.path.isdir(p))
         # every entry must still give the right value; evicted ones are recomputed
